@@ -31,7 +31,7 @@ def generate(seed, tier, k):
         doc["c07"]["direct"] = True
         doc["c07"]["x0"] = False
         doc["c07"]["clock_twin"] = False
-    return doc
+    return gen.maybe_units(doc)
 
 
 class C07Monitor(jobsim.Monitor):
@@ -222,7 +222,8 @@ class C07Monitor(jobsim.Monitor):
         # linear problem: one update (exact solver only)
         if self.linear and not self._faulted(eng, c):
             K = its[0]["K"]
-            scale = abs(K).max() * (np.abs(x).max() + 1e-300) * len(x)
+            xs_ = max(float(np.abs(x).max()), max(float(np.abs(v).max()) for v in c["x_start"]))  # also a return to zero has rounding noise of the size of the increment
+            scale = abs(K).max() * (xs_ + 1e-300) * len(x)
             if 1e-12 * scale < tol * 1e-3 and res.iterations != 1:
                 self.V("linear-one-update", f"linear problem needed {res.iterations} iterations", site="newtonrhapson")
             self.log.count("linear-one-update-checked")
